@@ -22,8 +22,10 @@ bool _crypt_get_random_bytes(void *buf, size_t n) {
 }
 
 // next scripted outcome for a source; "ok" when the script has nothing (faults stopped)
+namespace thr { void co_yield_point(const char *where); }   // engine.cc: a place where a real thread may lose the CPU
+using thr::co_yield_point;
 static std::string next_outcome(const char *src) {
-  auto &q = g_rngdev.script[src];
+  auto &q = g_rngdev.script[cur_task()][src];
   if (q.empty()) return "ok";
   std::string o = q.front();
   if (!o.empty() && o.back() == '*') return o.substr(0, o.size() - 1);   // pinned for the rest of the op
@@ -39,6 +41,7 @@ static void partial_fill(void *buf, size_t n, const char *src) {
 }
 // returns bytes delivered (or -1 with errno)
 static long serve(const char *src, void *buf, size_t n, bool all_or_nothing) {
+  co_yield_point(src);
   std::string o = next_outcome(src);
   g_rngdev.calls[src]++;
   MemLayer::get().stats[std::string("src_") + src]++;
@@ -85,6 +88,7 @@ long sim_syscall(long nr, ...) {
 }
 int sim_open(const char *path, int flags, ...) {
   (void)flags;
+  co_yield_point("open");
   g_rngdev.calls["open"]++;
   MemLayer::get().stats["src_open"]++;
   std::string o = next_outcome("open");
@@ -96,7 +100,7 @@ int sim_open(const char *path, int flags, ...) {
     errno = o == "emfile" ? EMFILE : o == "eacces" ? EACCES : o == "eintr" ? EINTR : o == "enfile" ? ENFILE : o == "enomem" ? ENOMEM : ENOENT; return -1;
   }
   int fd = 1000 + g_rngdev.next_fd++;
-  g_rngdev.open_fds.insert(fd);
+  g_rngdev.open_fds[fd] = cur_task();
   ev(vfmt("open /dev/urandom -> fd%d", fd - 1000));
   return fd;
 }
@@ -111,6 +115,7 @@ int sim_close(int fd) {
   if (!g_rngdev.open_fds.count(fd)) { errno = EBADF; return -1; }
   g_rngdev.open_fds.erase(fd);
   ev(vfmt("close fd%d", fd - 1000));
+  co_yield_point("close");
   return 0;
 }
 }
